@@ -10,6 +10,19 @@ class InvalidScenario(Exception):
     itself calls invalid). Never a violation, never a success: batch = harness error, shrink = candidate rejected."""
 
 
+def raised_inside_sut(ex: BaseException) -> bool:
+    """True if the innermost frame of the exception's traceback is code of the system under test (pydsdl itself): the
+    exception then is behaviour of the code under test during a query the property speaks about, not a harness failure."""
+    import os
+    repo = os.path.realpath(os.environ.get("DSIM_REPO", "/repo")) + os.sep
+    tb = ex.__traceback__
+    last = None
+    while tb is not None:
+        last = tb
+        tb = tb.tb_next
+    return last is not None and os.path.realpath(last.tb_frame.f_code.co_filename).startswith(repo)
+
+
 class Outcome:
     """Result of executing one scenario."""
 
